@@ -10,6 +10,9 @@ from vf.core import Prop, Result
 from vf.props.c05 import NAMES
 
 EXT = {"edif": ".edf", "verilog": ".v", "eblif": ".eblif"}
+# all three readers create as many pins/wires as an index or width literal says; a 9-digit literal is
+# therefore minutes of work, not a hang. Such inputs are outside what the fuzzer is allowed to produce.
+HUGE_NUMBER = re.compile(r"\d{5,}")
 KINDS = ["truncate", "truncate", "delete", "duplicate", "replace", "replace", "swap", "dangling", "dangling",
          "unsupported", "all-truncations", "garbage"]
 JUNK = ["(", ")", "0", "zz", '"s"', "cell", "net", "module", "endmodule", ";", ",", ".", "[", "]", "{", "}",
@@ -61,6 +64,24 @@ def parse_string(fmt, text):
         with open(path, "w") as fh:
             fh.write(text)
         return sdn.parse(path)
+
+
+def parse_stream(fmt, text):
+    """parse from an in-memory stream through the readers' public from_file_handle entry points
+    (used by the fuzz target: no temp file per execution)"""
+    import io
+
+    if fmt == "edif":
+        from spydrnet.parsers.edif.parser import EdifParser
+        p = EdifParser.from_file_handle(io.StringIO(text))
+    elif fmt == "verilog":
+        from spydrnet.parsers.verilog.parser import VerilogParser
+        p = VerilogParser.from_file_handle(io.StringIO(text))
+    else:
+        from spydrnet.parsers.eblif.eblif_parser import EBLIFParser
+        p = EBLIFParser.from_file_handle(io.StringIO(text))
+    p.parse()
+    return p.netlist
 
 
 def fingerprint(nl):
@@ -137,6 +158,8 @@ class C15(Prop):
             "give the same outcome trace as in a fresh state. non-trivial = the corruption changed the "
             "token stream and the uncorrupted text parses; distinct = distinct case JSON")
     ASSUMPTIONS = ["any Exception subclass counts as a clean rejection",
+                   "numeric literals of 5+ digits are excluded from fuzzer inputs: every reader creates "
+                   "as many pins/wires as an index or width says (time proportional to the literal)",
                    "a hang is reported only through the per-case watchdog (20 s for texts that parse in "
                    "milliseconds)"]
     N = {"quick": 2400, "thorough": 40000}
@@ -267,6 +290,19 @@ class C15(Prop):
 
         res = Result()
         ref = reference_probe()
+        if "raw" in case:
+            # an input saved by the coverage-guided fuzzer
+            fmt, text = case["raw"]["fmt"], case["raw"]["text"]
+            res.label("fuzzer-artifact")
+            if HUGE_NUMBER.search(text):
+                res.label("huge-literal(out of domain)")
+                return res
+            sdn.namespace_manager.default = "DEFAULT"
+            self.one_parse(res, fmt, text, False, "fuzzer-input")
+            sdn.namespace_manager.default = "DEFAULT"
+            if probe() != ref:
+                res.violate("C15:residue-after-%s-parses:fuzzer-input" % fmt, text[:300])
+            return res
         texts = self.texts(case)
         fmt = case["fmt"]
         sdn.namespace_manager.default = case.get("initial_policy", "DEFAULT")
@@ -307,6 +343,82 @@ class C15(Prop):
         res.extra["parses"] = len(variants) + len(case.get("suffix", []))
         res.extra["rejected"] = rejected
         return res
+
+
+    # -------------------------------------------------------------------------------------------
+    def post(self, tier, seed):
+        """thorough tier: coverage-guided fuzzing of each reader with the same oracle in the target"""
+        import glob
+        import shutil
+        import subprocess
+        import sys
+        import zipfile
+
+        if tier != "thorough":
+            return {}
+        here = os.path.dirname(os.path.dirname(os.path.dirname(os.path.abspath(__file__))))
+        env = dict(os.environ)
+        try:
+            sys.path.insert(0, os.path.join(here, ".deps"))
+            import atheris  # noqa
+        except Exception as e:  # noqa
+            return {"fuzzing": "atheris not importable (%r): Hypothesis campaign only" % (e,)}
+        repo = os.environ.get("VERIF_REPO", "/repo")
+        runs = int(os.environ.get("VERIF_FUZZ_RUNS", "60000"))
+        budget = int(os.environ.get("VERIF_FUZZ_SECONDS", "420"))
+        work = tempfile.mkdtemp(prefix="vf_c15_fuzz_")
+        procs = []
+        exdir = {"edif": "EDIF_netlists", "verilog": "verilog_netlists", "eblif": "eblif_netlists"}
+        try:
+            for fmt in ("edif", "verilog", "eblif"):
+                files = sorted(glob.glob(os.path.join(repo, "example_netlists", exdir[fmt], "*.zip")),
+                               key=os.path.getsize)[:3]
+                for k in range(5):
+                    corpus = os.path.join(work, "%s_corpus_%d" % (fmt, k))
+                    art = os.path.join(work, "%s_art_%d_" % (fmt, k))
+                    os.makedirs(corpus)
+                    if k > 0:  # shard 0 starts from an empty corpus
+                        with open(os.path.join(corpus, "good"), "w") as fh:
+                            fh.write(GOOD[fmt])
+                        for f in files[:k]:
+                            try:
+                                z = zipfile.ZipFile(f)
+                                data = z.read(z.namelist()[0])
+                                if len(data) < 20000:
+                                    open(os.path.join(corpus, os.path.basename(f)), "wb").write(data)
+                            except Exception:  # noqa
+                                pass
+                    cmd = ["/venv/bin/python", "-m", "vf.fuzz_c15", fmt, corpus, "-runs=%d" % runs,
+                           "-seed=%d" % (seed * 100 + k + 1), "-timeout=20", "-max_len=4096",
+                           "-max_total_time=%d" % budget, "-artifact_prefix=" + art]
+                    log = open(os.path.join(work, "%s_%d.log" % (fmt, k)), "w")
+                    procs.append((fmt, k, art, subprocess.Popen(cmd, cwd=here, env=env, stdout=log,
+                                                                stderr=subprocess.STDOUT), log))
+            info = {"fuzzing": "atheris/libFuzzer, 5 shards per reader (shard 0 from an empty corpus)",
+                    "fuzz_executions": 0, "fuzz_artifacts": 0}
+            found = []
+            for fmt, k, art, p, log in procs:
+                try:
+                    p.wait(timeout=budget + 120)
+                except subprocess.TimeoutExpired:
+                    p.kill()
+                log.close()
+                txt = open(log.name, errors="replace").read()
+                m = re.findall(r"Done (\d+) runs", txt)
+                if m:
+                    info["fuzz_executions"] += int(m[-1])
+                else:
+                    m = re.findall(r"#(\d+)\s", txt)
+                    if m:
+                        info["fuzz_executions"] += int(m[-1])
+                for f in glob.glob(art + "*"):
+                    info["fuzz_artifacts"] += 1
+                    data = open(f, "rb").read().decode("utf-8", "ignore")
+                    found.append({"raw": {"fmt": fmt, "text": data, "kind": os.path.basename(f)}})
+            info["cases"] = found
+            return info
+        finally:
+            shutil.rmtree(work, ignore_errors=True)
 
 
 PROP = C15()
